@@ -361,7 +361,7 @@ func runC03Seen(c *Ctx) {
 				}
 				if getKey == nil {
 					bad = append(bad, "no rule lookup by the entry's key inside the input loop")
-				} else if getKey != upd.Key {
+				} else if !sameSSAValue(getKey, upd.Key) {
 					bad = append(bad, "the key recorded as seen is not the key the rules are looked up by")
 				}
 				// report after the loop
